@@ -41,6 +41,12 @@ fn spectra() -> Vec<RefArray> {
         RefArray::from_fn(&[3, 3, 3, 2], |f, _| ((f * 11) % 13 + 2) as f64),
         RefArray::from_fn(&[7, 5], |f, _| (f as f64).sqrt() + 0.5),
         RefArray::from_fn(&[2, 2, 2], |f, _| f as f64 + 1.0),
+        // totals below one and exactly one (already-normalized inputs), and single-entry spectra
+        RefArray::from_fn(&[3, 4], |f, _| (f + 1) as f64 / 1024.0),
+        RefArray { shape: vec![2, 3], data: vec![1.0 / 16.0, 2.0 / 16.0, 3.0 / 16.0, 4.0 / 16.0, 5.0 / 16.0, 1.0 / 16.0] },
+        RefArray { shape: vec![1], data: vec![7.0] },
+        RefArray { shape: vec![1, 1, 1], data: vec![3.5] },
+        RefArray { shape: vec![4], data: vec![0.25, 0.5, 0.125, 0.0625] },
     ]
 }
 
@@ -283,10 +289,9 @@ fn eval(c: &Combo, scratch: &Scratch) -> Vec<Viol> {
 
 fn combos(tier: Tier) -> Vec<Combo> {
     let sp = spectra();
-    let n_spectra = tier.pick(4, sp.len());
     let mut out = Vec::new();
     let mut counter = 0usize;
-    for (si, x) in sp.iter().enumerate().take(n_spectra) {
+    for (si, x) in sp.iter().enumerate().filter(|(si, _)| tier.thorough() || ![4, 5].contains(si)) {
         let d = x.shape.len();
         let mut margs = vec![Marg::None];
         if d >= 2 {
@@ -346,7 +351,7 @@ fn combos(tier: Tier) -> Vec<Combo> {
 
 pub fn run(tier: Tier) -> i32 {
     let mut rep = Report::new("C13", tier, "model_checking");
-    rep.rule = "operation sequences of `sfs view`: spectra with 1..4 axes x all 16 subsets of {marginalize, project, mask, normalize} x every admissible marginalization set (as -m and as -M) x projection targets {identity, each axis -1, minimal, odd shape via -p} x output {text p6, text p12, npy}. For each combination (a) the combined invocation and (b) the chain of single-option invocations in the documented order connected by lossless npy pipes must be byte-identical, and (c) the combined result must equal the reference semantics (marginalize, hypergeometric project, zero exactly the all-zero and all-maximum cells, divide by the sum). All orders of chaining are run on one spectrum to show that the oracle distinguishes orders. states = distinct option combinations, transitions = sfs processes run. Non-trivial = >=2 options selected.".into();
+    rep.rule = "operation sequences of `sfs view`: spectra with 1..4 axes (counts, totals below and equal to one, single-entry spectra) x all 16 subsets of {marginalize, project, mask, normalize} x every admissible marginalization set (as -m and as -M) x projection targets {identity, each axis -1, minimal, odd shape via -p} x output {text p6, text p12, npy}. For each combination (a) the combined invocation and (b) the chain of single-option invocations in the documented order connected by lossless npy pipes must be byte-identical, and (c) the combined result must equal the reference semantics (marginalize, hypergeometric project, zero exactly the all-zero and all-maximum cells, divide by the sum). All orders of chaining are run on one spectrum to show that the oracle distinguishes orders. states = distinct option combinations, transitions = sfs processes run. Non-trivial = >=2 options selected.".into();
     let scratch = Scratch::new("c13");
     let cs = combos(tier);
     let res = par_map(cs.len(), |i| eval(&cs[i], &scratch));
@@ -379,6 +384,34 @@ pub fn run(tier: Tier) -> i32 {
         ("chain", J::s("view -M 2,0 -O npy | view --project-shape 2,3 -O npy | view --mask-monomorphic -O npy | view --normalize --precision 12")),
         ("stdin", J::s(text_of(&spectra()[2]))),
     ]));
+
+    // library layer: explicit-state search over operation sequences on the live objects
+    let inits: Vec<RefArray> = vec![
+        RefArray::from_fn(&[2, 3, 2], |f, _| (f * 7 % 11 + 1) as f64),
+        RefArray::from_fn(&[3, 2, 2, 2], |f, _| ((f * 5) % 9 + 1) as f64),
+        RefArray::from_fn(&[4, 3], |f, _| (1u64 << f) as f64),
+        RefArray::from_fn(&[5], |f, _| (f * f + 1) as f64),
+        RefArray::from_fn(&[2, 1, 3], |f, _| f as f64 + 0.25),
+    ];
+    let depth = tier.pick(4, 5);
+    let explored = par_map(inits.len(), |i| super::c13_lib::explore(&inits[i], depth, 400_000));
+    for (x, e) in inits.iter().zip(explored) {
+        rep.states += e.states;
+        rep.transitions += e.transitions;
+        rep.traces += e.transitions;
+        rep.outcome(format!("lib search from {:?}: {} states", x.shape, e.states));
+        rep.part(Part {
+            name: format!("lib: operation-sequence search from {:?}", x.shape),
+            evaluations: e.transitions,
+            nontrivial: e.transitions,
+            note: format!("{} states, {} transitions, depth bound {depth} (max depth reached {}), frontier emptied below the bound: {}; operations: marginalize (one axis, two axes in both orders), project (one axis -1, all axes to 1), mask, normalize, fold; after every transition shape, every value (flat and through multi-index access), element count, total and every axis sum are compared with the reference", e.states, e.transitions, e.max_depth, e.closed),
+            exhaustive: true,
+            extra: vec![("states".into(), J::Int(e.states as i64)), ("transitions".into(), J::Int(e.transitions as i64)), ("depth_bound".into(), J::u(depth)), ("closed_below_bound".into(), J::Bool(e.closed))],
+        });
+        for (k, w, j) in e.viols {
+            rep.violation(k, w, j);
+        }
+    }
 
     // order sanity: all 24 orders of chaining on one 4-option case; the documented one must match,
     // and at least one other order must differ (otherwise the comparison would be vacuous)
@@ -419,6 +452,14 @@ pub fn run(tier: Tier) -> i32 {
 }
 
 pub fn replay(case: &J) -> Option<Vec<String>> {
+    if case.get("kind").and_then(|k| k.as_str()) == Some("c13-lib") {
+        let init = RefArray { shape: case.get("shape")?.as_usizes()?, data: case.get("values")?.as_arr()?.iter().filter_map(|v| v.as_f64()).collect() };
+        let hist: Vec<super::c13_lib::Op> = case.get("history")?.as_str()?.split_whitespace().map(super::c13_lib::Op::parse).collect::<Option<_>>()?;
+        return Some(match super::c13_lib::run_history(&init, &hist) {
+            Ok(_) => vec![],
+            Err((k, w, _)) => vec![format!("{k} :: {w}")],
+        });
+    }
     let parse_marg = |s: &str| -> Marg {
         let nums = |t: &str| -> Vec<usize> { t.trim_matches(|c| c == '[' || c == ']' || c == '(' || c == ')').split(',').filter_map(|x| x.trim().parse().ok()).collect() };
         if let Some(r) = s.strip_prefix("Remove") {
